@@ -86,6 +86,8 @@ void Label::apply_repetition(Array<Label*>& result) {
     Array<Vec2> offsets = {};
     repetition.get_offsets(offsets);
     repetition.clear();
+    // A lattice with zero columns or rows has no offsets at all
+    if (offsets.count == 0) return;
 
     // Skip first offset (0, 0)
     double* offset_p = (double*)(offsets.items + 1);
